@@ -81,8 +81,18 @@ Definition check_case (c : case) : bool :=
     | _, _ => false
     end
   | WRsp st hd res =>
+    (* the map-driven part as a multiset; which of several valid Content-Length values is "the first"
+       depends on the iteration order of the map: exactly one of the candidates, or none if there is none *)
+    let is_clf := fun f : field => beq (fname f) n_content_length in
+    let cands := filter is_clf (flat_map (rsp_entry_fields (declared_trailers (gomap_of hd))) (gomap_of hd)) in
     match fields_of res, rsp_fields st (gomap_of hd) with
-    | f :: r, f' :: r' => feq f f' && fperm r r'
+    | f :: r, f' :: r' =>
+      feq f f' && fperm (filter (fun x => negb (is_clf x)) r) (filter (fun x => negb (is_clf x)) r') &&
+      match filter is_clf r with
+      | [] => match cands with [] => true | _ => false end
+      | [c] => existsb (feq c) cands
+      | _ => false
+      end
     | _, _ => false
     end
   | WRspTr h1 h2 res => opt_perm res (rsp_trailers (declared_trailers (gomap_of h1)) (gomap_of h2))
